@@ -108,6 +108,24 @@ def gen_cases(rng, tier):
                     nt = rng.choice([1, 2, 2, 4] if tier == "quick" else [1, 2, 3, 4])
                     cases.append(gen_case(rng, kind, d, m, source, nb, nt))
             cases.append(gen_case(rng, kind, d, 1, "hand", 1 if d == 1 else 2, 2, malformed=True))
+            # the batch also carries a parameter batch the network reads: border row i goes with parameter row i
+            for r in range(2 if tier == "quick" else 12):
+                nb = 1 if d == 1 else rng.choice([1, 2])
+                nt = rng.choice([2, 4]) if (kind == "nonstatio" and nb == 1) else (rng.choice([1, 2]) if kind == "nonstatio" else 1)
+                if kind == "statio" and d == 1:
+                    continue      # a 1-D stationary border has a single row
+                for _ in range(20):
+                    c = gen_case(rng, kind, d, rng.choice([1, 2]), "hand", nb, nt)
+                    rows = c["batch"]["border"]
+                    nF = len(rows[0][0])
+                    pts = [tuple(cc[k] for cc in row) for row in rows for k in range(nF)]
+                    if len(rows) >= 2 and len(set(pts)) == len(pts):
+                        break
+                else:
+                    continue
+                pool = [Fr(x, 2) for x in range(-6, 7) if Fr(x, 2) != K.F(c["theta"])]
+                c["pbatch"] = {"theta": K.qrow(rng.sample(pool, len(rows)))}
+                cases.append(c)
     # separable networks (SPINN branches): every facet, Dirichlet and Neumann, with and without time
     sreps = 3 if tier == "quick" else 16
     for kind in ("statio", "nonstatio"):
@@ -203,7 +221,7 @@ def run_impl(case):
     other_shape = variant(_flip_shape(case))
     other_spec = variant(_other_spec(case, nF))
     time_dup = None
-    if case["kind"] == "nonstatio":
+    if case["kind"] == "nonstatio" and not case.get("pbatch"):
         a2 = dict(arrays)
         a2["border"] = border + border
         time_dup = variant(case, a2)
@@ -268,6 +286,8 @@ def tags(case, obs):
         out.append(f"spinn:{case['kind']}:d={case['d']}")
     if case.get("malformed"):
         out.append("malformed")
+    if case.get("pbatch"):
+        out.append("parameter_batch")
     for f in b["facets"]:
         if f is None:
             out.append("facet=None")
